@@ -20,6 +20,9 @@ SCRIPTS = [
     (["session"], 40),
     (["default"], 10),
     (["default", "event"], 4),
+    (["adex-bad"], 6),
+    (["adex-ok"], 3),
+    (["adex-bad", "session"], 3),
     (["session", "event"], 12),
     (["session", "sysevent", "save"], 10),
     (["session", "session"], 14),
@@ -31,6 +34,16 @@ SCRIPTS = [
 # --------------------------------------------------------------------------
 # code under test, as run inside each simulated process
 # --------------------------------------------------------------------------
+
+_GOOD = []
+
+
+def _GOOD_DEX():
+    if not _GOOD:
+        with open(os.path.join(core.CORPUS_DIR, "dex", "Test.dex"), "rb") as f:
+            _GOOD.append(f.read())
+    return _GOOD[0]
+
 
 _DATABASES = []     # every dataset.Database opened by the code under test in this body, this run
 
@@ -82,6 +95,30 @@ def child_main(script, report):
                 if not isinstance(sid, (int, str, bool, type(None))):
                     sid = repr(sid)
                 report(("ret", opidx, "session", sid, type(s.session_id).__name__))
+            elif op in ("adex-bad", "adex-ok"):
+                # misc.AnalyzeDex with the default session: Session() on ./androguard.db, then the file is parsed
+                import sqlite3
+                import androguard.misc as M
+                from androguard.core import androconf
+                from sqlalchemy.exc import SQLAlchemyError
+                os.chdir(script["cwd"])
+                androconf.CONF["SESSION"] = None
+                err = None
+                try:
+                    M.AnalyzeDex(_GOOD_DEX() if op == "adex-ok" else b"dex\n035\x00" + b"\x01" * 200, raw=True)
+                except Exception as e:
+                    err = e
+                s = androconf.CONF["SESSION"]
+                if s is not None:
+                    sessions.append(s)
+                    sid = s.session_id
+                    if not isinstance(sid, (int, str, bool, type(None))):
+                        sid = repr(sid)
+                    report(("ret", opidx, "session", sid, type(s.session_id).__name__))
+                elif isinstance(err, (SQLAlchemyError, sqlite3.Error)):
+                    raise err
+                else:
+                    report(("info", opidx, "analyzedex-left-no-session", type(err).__name__ if err else "none"))
             elif op == "event":
                 sessions[-1].insert_event("call", "callee", "params", "ret")
                 report(("ret", opidx, op, None, ""))
@@ -97,7 +134,8 @@ def child_main(script, report):
             raise
         except Exception as e:  # the code under test raised: report, then the script dies like an uncaught exception
             first = (str(e).split("\n")[0])[:200]
-            report(("exc", opidx, "session" if op == "default" else op, type(e).__name__, first, procsim._LAST_KIND[0]))
+            report(("exc", opidx, "session" if op in ("default", "adex-bad", "adex-ok") else op, type(e).__name__, first,
+                    procsim._LAST_KIND[0]))
             return
 
 
